@@ -241,6 +241,14 @@ func cmsCase(c *Ctx, h cmsHandle, rows, cols uint, redis bool) {
 		}
 		if r := c.rng.Intn(10); r < 6 {
 			cnt := cmsCounts[c.rng.Intn(len(cmsCounts))]
+			if !redis && c.rng.Intn(6) == 0 {
+				// in-memory counters are uint64s: single counts and running sums around 2^62 / 2^63
+				// (kept below 2^64 in total: the model counts in unbounded naturals)
+				big := []uint64{1 << 62, 1<<62 + 1, 1<<63 + 5, 1 << 61}[c.rng.Intn(4)]
+				if total < 1<<63 && big <= (1<<64-1)-total-(1<<40)*uint64(nops) {
+					cnt = big
+				}
+			}
 			var res callResult
 			var uerr error
 			switch r % 3 {
